@@ -19,12 +19,13 @@ KINDS = ["SpikeThresh", "InitMembPotential", "SpecificCapacitance", "Resistivity
 DEFAULTS = {"soma": "soma_group", "axon": "axon_group", "dendrite": "dendrite_group"}
 DEFAULT_NAMES = ["all", "soma_group", "axon_group", "dendrite_group"]
 KNOWN_KEY = "C15:group-id-used-with-two-segment-types"
-USER_GROUPS = ["dend_1", "dend_2", "dend_10", "axon_1", "axon_2", "soma_0", "sec1", "sec2", "sec10", "apical", "basal", "g", "h"]
+# dend_1/dend_01 and sec1/sec01 have the same natural-sort key and are different ids
+USER_GROUPS = ["dend_01", "sec01", "dend_1", "dend_2", "dend_10", "axon_1", "axon_2", "soma_0", "sec1", "sec2", "sec10", "apical", "basal", "g", "h"]
 
 
 def seg(**kw):
     d = {"op": "seg", "prox": True, "seg_id": None, "name": None, "parent": None, "frac": 4, "group": None,
-         "conv": True, "ty": "soma", "reorder": True, "optimise": True}
+         "conv": True, "ty": "soma", "reorder": True, "optimise": True, "frac_int": False}
     d.update(kw)
     return d
 
@@ -33,6 +34,12 @@ PROPS3 = [{"op": "prop", "kind": k, "v": 0, "group": "all"} for k in KINDS[:3]]
 
 # stored witnesses (DESIGN.md par.7, C15) - always run first
 CORPUS = [
+    {"init": "factory", "kind": "corpus:explicit-ids-not-ascending-then-duplicate",
+     "ops": [seg(seg_id=10), seg(seg_id=11, parent=0, ty="dendrite"), seg(seg_id=5, parent=0, ty="axon"),
+             seg(seg_id=6, parent=2, ty="axon", frac=0, frac_int=True), seg(seg_id=10, parent=1, ty="dendrite")]},
+    {"init": "factory", "kind": "corpus:group-ids-equal-under-natural-sort",
+     "ops": [seg(), seg(parent=0, group="dend_1", ty="dendrite"), seg(parent=0, group="dend_01", ty="dendrite"),
+             seg(parent=1, group="dend_1", ty="dendrite", frac=0, frac_int=True)]},
     {"init": "factory", "kind": "corpus:duplicate-explicit-id",
      "ops": [seg(seg_id=5), seg(seg_id=5, parent=0, ty="dendrite", prox=False)] + PROPS3},
     {"init": "factory", "kind": "corpus:automatic-id-collision",
@@ -116,7 +123,8 @@ def gen_case(rng, long=False):
             if faulty and conv and rng.random() < 0.05:
                 ty = rng.choice([None, "foo", ""])
             o = seg(prox=(nseg == 0 or rng.random() < 0.4), seg_id=sid, name=rng.choice([None, None, None, "nm", ""]),
-                    parent=parent, frac=frac, group=g, conv=conv, ty=ty if (conv or rng.random() < 0.5) else None,
+                    parent=parent, frac=frac, frac_int=(rng.random() < 0.5), group=g, conv=conv,
+                    ty=ty if (conv or rng.random() < 0.5) else None,
                     reorder=rng.random() < 0.5, optimise=rng.random() < 0.6)
             ops.append(o)
             used.append(sid if sid else auto())
@@ -130,7 +138,7 @@ def gen_case(rng, long=False):
             conv, ty = role_for(g)
             npts = rng.choice([2, 2, 3, 4, 5]) if not (faulty and rng.random() < 0.1) else 1
             ops.append({"op": "unbranched", "npoints": npts, "parent": rng.randrange(nseg), "frac": rng.choice([4, 4, 2, 0]),
-                        "group": g, "conv": conv, "ty": ty, "reorder": rng.random() < 0.5, "optimise": rng.random() < 0.6})
+                        "frac_int": rng.random() < 0.5, "group": g, "conv": conv, "ty": ty, "reorder": rng.random() < 0.5, "optimise": rng.random() < 0.6})
             for _k in range(max(npts - 1, 0)):
                 used.append(auto())
                 nseg += 1
@@ -267,8 +275,12 @@ def q_final(f):
 
 
 def q_case(c, r):
-    return "(mkCase15 %s %s %s %s)" % (q_bool(c["init"] == "factory"), coq_list([q_op(o) for o in c["ops"]]),
-                                       coq_list([q_step(t) for t in r["trace"]]), q_final(r["final"]))
+    probes = (r["final"] or {}).get("probes") or []
+    return "(mkCase15 %s %s %s %s %s %s)" % (
+        q_bool(c["init"] == "factory"), coq_list([q_op(o) for o in c["ops"]]),
+        coq_list([q_step(t) for t in r["trace"]]), q_final(r["final"]),
+        coq_list([coq_z(z) for z, _ in probes]),
+        coq_list(["(OErr %s)" % ERR[o["err"]] if o.get("err") in ERR else "OOtherErr" for _, o in probes]))
 
 
 HEADER = ("From Coq Require Import String List ZArith Bool.\nFrom LNML Require Import Model.Groups Model.Builder.\n"
@@ -333,9 +345,41 @@ def discipline(tags, case):
     return True, None
 
 
+def expected_error(o, before):
+    """what THIS FILE expects a single add_segment / set_* call to raise (None = it must return)"""
+    if o["op"] == "seg":
+        if o["parent"] is None and before:
+            return "NoParent"
+        if o["parent"] is not None and not (0 <= o["frac"] <= 4):
+            return "Validation"
+        if o["seg_id"] and o["seg_id"] in before:
+            return "DupId"
+        if o["conv"] and not o["ty"]:
+            return "NoSegType"
+        if o["conv"] and o["ty"] not in DEFAULTS:
+            return "BadSegType"
+        return None
+    if o["op"] == "prop":
+        return None if (o["v"] < 100 and nmlid(o["group"])) or o["kind"] != "Resistivity" else "Validation"
+    return "?"
+
+
 def predicate(case, res):
     bad = []
     trace = res["trace"]
+    before = []
+    for o, t in zip(case["ops"], trace):
+        want = expected_error(o, before)
+        if want is None and "err" in t and t["err"] != "Recursion":
+            bad.append(("C15:legal-call-raises", "a call with legal arguments raised %s: %s" % (t["err"], json.dumps(o)[:200]),
+                        "returns", t["err"]))
+        if "state" in t:
+            before = [s[0] for s in t["state"]["segs"]]
+    for z, o in ((res["final"] or {}).get("probes") or []):
+        if o.get("err") != "DupId":
+            bad.append(("C15:duplicate-explicit-segment-id-accepted",
+                        "add_segment(seg_id=%d) on the finished cell, where that id is in use, did not raise ValueError" % z,
+                        "ValueError", o.get("err", "returned normally")))
     # explicit id in use must be refused
     before = []
     for o, t in zip(case["ops"], trace):
@@ -370,6 +414,9 @@ def predicate(case, res):
         return bad
     st = fin["state"]
     ids = [s[0] for s in st["segs"]]
+    if fin.get("new_attributes"):
+        bad.append(("C15:builder-leaves-state-on-cell", "the builder calls left new attribute(s) %s on the cell" % fin["new_attributes"],
+                    "no new attribute", fin["new_attributes"]))
     if len(set(ids)) != len(ids):
         dup = sorted(x for x in set(ids) if ids.count(x) > 1)
         explicit = [o["seg_id"] for o in case["ops"] if o["op"] == "seg" and o["seg_id"]]
